@@ -62,7 +62,10 @@ DIRECTED = [
     ("sequence a = NNNNN : 5\nstrand A = a a : 10\nstructure [1nt] H = A : ((((()))))\n", "selfpair-odd"),
     # even length: satisfiable
     ("sequence a = NNNN : 4\nstrand A = a a : 8\nstructure [1nt] H = A : (((())))\n", "selfpair-even"),
-    # odd palindrome through equal
+    # a strand paired with its own copy (homodimer): odd length pairs the middle position with itself
+    ("sequence a = NNNNN : 5\nstrand A = a : 5\nstructure D = A + A : (((((+)))))\n", "homodimer-odd"),
+    ("sequence a = NNNN : 4\nstrand A = a : 4\nstructure D = A + A : ((((+))))\n", "homodimer-even"),
+    ("sequence a = NNN : 3\nsequence b = NN : 2\nstrand A = a b : 5\nstructure D = A + A : ..(..+..)..\n", "homodimer-middle-only"),
     ("sequence p = NNN : 3\nstrand P = p : 3\nstructure P1 = P : ...\nequal p p*\n", "palindrome-odd"),
     # F5: D meets V -> R, B meets H -> Y (satisfiable)
     ("sequence a = DDD : 3\nsequence b = VVV : 3\nstrand A = a b : 6\nstructure S = A : ......\nequal a b\n", "D-V"),
